@@ -54,6 +54,8 @@ def smt_cases():
     add(S([Group(Alt([Look(Cls([(ord("a"), ord("z"))])), L("#")]), cap=False), Quant(Esc("w"), 1, None)]), "", "alt_zero_width_arm_then_w")
     add(S([Group(Alt([Look(L("q")), L("z")])), L("q")]), "", "alt_lookahead_or_z_then_q")
     add(S([Group(Alt([Look(L("$"), ahead=False), L("+")]), cap=False), Quant(Esc("d"), 1, None)]), "", "alt_lookbehind_arm_digits")
+    add(Alt([S([Group(Alt([Dot(), Quant(Backref(1), 1, 3)])), Cls([ord("s")], neg=True)]), S([])]), "s", "alt_backref_range_or_empty")
+    add(S([Group(Alt([Dot(), Quant(Backref(1), 0, 2)])), Backref(1)]), "", "alt_dot_or_backref_loop")
     # quantifiers greedy / lazy / ranges
     add(S([Quant(a, 1, None), b]), "", "plus_then_b")
     add(S([Quant(a, 0, None, False), b]), "", "lazy_star_then_b")
@@ -116,6 +118,14 @@ def smt_cases():
         add(S([WB(), Dot()]), f, "icase_wordboundary_" + f, nmax=2, widths=(1, 2, 3))
         add(S([Cls([(0x3B1, 0x3C9)], neg=True)]), f, "icase_neg_greek_" + f, nmax=1, widths=(1, 2, 3))
         add(S([Quant(L("\u017f"), 1, 2), L("t")]), f, "icase_longs_loop_" + f, nmax=3, widths=(1, 2))
+    # named groups in every structural position (C16: names in source order, aligned with the slots)
+    add(Alt([S([Group(a, name="x")]), S([Group(b, name="y")])]), "", "named_in_alternatives")
+    add(Alt([S([Group(a, name="n")]), S([Group(b, name="n")])]), "", "named_duplicate_in_alternatives")
+    add(S([Group(S([Group(a, name="inner"), Group(b)]), name="outer"), Group(x, name="last")]), "", "named_nested")
+    add(S([Quant(Group(S([Group(a, name="p"), Group(b, name="q")]), cap=False), 1, 2), L("c")]), "", "named_in_loop")
+    add(S([Look(S([Group(a, name="ahead1"), Group(b, name="ahead2")])), a]), "", "named_in_lookahead")
+    add(S([Look(S([Group(a, name="l1"), Look(S([Group(x, name="l2"), Group(Dot(), name="l3")]), ahead=False), Group(b, name="l4")]), ahead=False), L("c")]), "", "named_nested_lookbehind", nmax=4, widths=(1,))
+    add(S([Group(a), Look(S([Group(Dot(), name="m1"), Group(Dot())]), ahead=False, neg=True), Group(b, name="m2")]), "", "named_mixed_neg_lookbehind")
     # anchors and prefilter shapes
     add(S([Start(), Alt([a, b])]), "", "anchored_alt")
     add(Alt([S([Start(), a]), S([Start(), b])]), "", "anchored_each_branch")
@@ -191,6 +201,19 @@ def run_mode(mode, case, progs, dumper, rng, budget_paths=20000, log=print):
                 return res
             res["a"] = vm_run(progs["noopt"], hy, ctx, s0)
             res["b"] = "halts" if res["a"] == ("STEPLIMIT",) else res["a"]
+            return res
+        if mode == "C02":
+            # one representative haystack per behaviour class (path) of the backtracking machine, on which the
+            # REAL backtracking executor and the REAL PikeVM executor are compared
+            res["vm"] = vm_run(progs["opt"], hy, ctx, s0)
+            m = ctx.model()
+            text = to_chars(hy, hy.model_bytes(m))
+            res["a"] = native_result(dumper.find(pat, case.flags, False, text, hy.off[s0]))
+            res["b"] = native_result(dumper.find_pike(pat, case.flags, False, text, hy.off[s0]))
+            if res["a"] == res["b"] and all(w == 1 for w in hy.widths):
+                res["a"] = native_result(dumper.find_ascii(pat, case.flags, False, text, hy.off[s0]))
+                res["b"] = native_result(dumper.find_pike(pat, case.flags, False, text, hy.off[s0], ascii=True))
+            out["witnesses"] = out.get("witnesses", 0) + 1
             return res
         if mode == "C13":
             res["a"] = vm_run(progs["opt"], hy, ctx, s0, ascii=True)
@@ -363,6 +386,15 @@ def confirm_native(mode, case, cex, dumper):
     if mode == "C13":
         asc = native_result(dumper.find_ascii(pat, case.flags, False, text, start))
         return asc != opt, "find_from_ascii %r vs find_from %r" % (asc, opt)
+    if mode == "C02":
+        pk = native_result(dumper.find_pike(pat, case.flags, False, text, start))
+        if opt != pk:
+            return True, "backtracking executor %r vs PikeVM executor %r" % (opt, pk)
+        if all(ord(ch) < 0x80 for ch in text):
+            a = native_result(dumper.find_ascii(pat, case.flags, False, text, start))
+            b = native_result(dumper.find_pike(pat, case.flags, False, text, start, ascii=True))
+            return a != b, "ASCII mode: backtracking executor %r vs PikeVM executor %r" % (a, b)
+        return False, "executors agree"
     if mode.startswith("names-"):
         r = dumper.dump(pat, case.flags, mode.endswith("noopt"))
         got = r["prog"]["group_names"] if r.get("ok") else None
@@ -519,7 +551,9 @@ def main(argv):
     scratch = argv[3]
     outpath = argv[4]
     rng = random.Random(seed)
-    if mode_prop == "C12":
+    if mode_prop == "C10":
+        cases = [c for c in smt_cases() if c.tag.startswith("icase")]
+    elif mode_prop == "C12":
         import classgen
         cases = classgen.cases(seed, 40 if tier == "quick" else 2000)
         _EXTRA.extend(cases)
@@ -530,7 +564,7 @@ def main(argv):
     else:
         cases = smt_cases() + random_cases(seed, 12 if tier == "quick" else 150)
         _EXTRA.extend(cases[len(smt_cases()):])
-        if tier == "quick" and mode_prop in ("C16",):
+        if mode_prop == "C16":
             cases = [c for c in cases if any(c.names)]
     d = native.Dumper(scratch, tag="smt")
     results = []
@@ -550,7 +584,7 @@ def main(argv):
                                     detail="pattern rejected by the compiler: %s" % rej, leaves=0, queries=0, solver_s=0,
                                     shapes=0, outcomes=[]))
                 continue
-            modes = {"C01": ["C01", "C01n"], "C12": ["C01", "C01n"], "C03": ["C03"], "C04": ["C04"], "C05": ["C05"], "C13": ["C13"]}[mode_prop]
+            modes = {"C01": ["C01", "C01n"], "C12": ["C01", "C01n"], "C10": ["C01", "C01n"], "C03": ["C03"], "C04": ["C04"], "C05": ["C05"], "C13": ["C13"], "C16": [], "C02": ["C02"]}[mode_prop]
             if mode_prop in ("C01", "C16") and any(case.names):
                 # C16: group names reported in source order, aligned with the capture slots (compile-side fact)
                 for which in ("opt", "noopt"):
